@@ -15,8 +15,10 @@ import sys
 import warnings
 
 warnings.filterwarnings("ignore")
-sys.path.insert(0, "/verif/harness")
-sys.path.insert(0, "/repo")
+import os
+
+sys.path.insert(0, os.path.dirname(os.path.abspath(__file__)))
+sys.path.insert(0, os.environ.get("VERIF_REPO", "/repo"))
 
 import logging
 
